@@ -3,8 +3,8 @@
 Rules are anchored in the functions the properties name.  Moving a few statements of such a function into a new private helper does not
 change behaviour, but it would move the shapes the rules look for (an accumulator, a guard and its error, a token fetch) out of the
 anchored function.  Every function of the two crates that is NOT in tables/known_functions.json (the function inventory of the
-reference tree), is private, is not a trait method, is not recursive and has no closures is therefore spliced back into each of its
-callers (MIR-level inlining on the fact model: parameters become assignments, `return` becomes an assignment of the destination and a
+reference tree), is not an impl's trait method (a provided trait method that no impl overrides is fine) and is not recursive is
+therefore spliced back into each of its callers (MIR-level inlining on the fact model: parameters become assignments, `return` becomes an assignment of the destination and a
 jump to the call's continuation).  The helper itself stays in the fact base but is no longer called, so inventories attribute its
 constructs to the callers.  Functions that existed in the reference tree are never inlined: they are what rules and tables name.
 """
@@ -209,8 +209,12 @@ def normalise(F, Fn):
         if k in known or f.crate not in ("saphyr_parser", "saphyr"):
             continue
         d = f.d
-        if f.kind not in ("Fn", "AssocFn") or d.get("pub") or d.get("impl_trait") or d.get("trait_of") or d.get("closure_of") or d.get("derived"):
+        if f.kind not in ("Fn", "AssocFn") or d.get("impl_trait") or d.get("closure_of") or d.get("derived"):
             continue
+        if d.get("trait_of"):
+            # a provided trait method: its body is what runs unless some impl of the trait defines the method itself
+            if any(g.d.get("impl_trait") == d["trait_of"] and g.name == f.name for g in F.fns.values()):
+                continue
         if "::test" in k or "::tests::" in k or len(f.blocks) > MAX_BLOCKS:
             continue
         cands[k] = f
